@@ -20,7 +20,7 @@ PROP = {
         "unit TestFoldWithSharedHeaderMaps: some actions of a generated sequence share one header map object with an earlier action of the same content (DataSanitation / TransformAPICall build their actions around the transaction's live header map); an action OBJECT is never used in two folds or twice in one, since every producer in the repository builds a fresh object per execution",
         "bodies are mostly short; one in six lies around the sizes at which buffers are usually cut (255 B ... 70000 B, ASCII or multi-byte)",
         "header names are HTTP tokens and values visible ASCII without CR/LF (the line-based header encoding cannot carry them and no producer emits them)",
-        "the action-level units re-state the fold loop (getSPOEReqActions / getSPOERespActions / runOnRequest are unexported) from the exported methods EnsureRequestIsUpdated, ReqPrioritize, ReqToSpoeActions; the loops themselves are exercised by the two end-to-end units with the action kinds real processors / remedies produce (ModifyRequest, EarlyResponse, ModifyResponse, NoOp)",
+        "the action-level units re-state the fold loop from the exported methods EnsureRequestIsUpdated, ReqPrioritize, ReqToSpoeActions and judge that fold against the model; every sequence (random and enumerated) is then also folded from fresh action objects by the flows-mode handler's own loops (getSPOEReqActions / getSPOERespActions, through the verif-tagged export routing.SPOEReqActionsForVerif / SPOERespActionsForVerif), which must hand the proxy the same variables - so those loops are run with every action kind, also GenerateRequest, which no flow processor emits today; runOnRequest (policy mode) stays unexported and is exercised by TestPolicyFoldThroughDispatcher with the kinds remedies produce",
         "policy mode: the order in which endpoint and global remedies run is not part of the statement - endpoint-then-global and global-then-endpoint (each list in declared order) are both accepted as 'the' order; one authentication remedy per scope (the API-key mechanism memoises its headers per endpoint)",
         "GenerateResponse accepts only the parameters of its registry entry (status, body, Content-Type); the early response is compared on exactly those",
     ],
